@@ -5,7 +5,7 @@
    var, int := decimal (ints may be negative)
    str      := '-' (empty) | codepoint ('.' codepoint)*
    val      := 'i:'int | 's:'str | 'n'              key := 'i:'int | 's:'str
-   operand  := 'L'val | 'V'var | 'E'var','int
+   operand  := 'L'val | 'V'var | 'E'var','int | 'C'var','int
    binop    := add | sub | mul
    mapfn    := 'add:'int | 'mul:'int | 'suf:'str | 'len'
    pred     := 'gt:'int | 'ne:'val | 'lengt:'int | 'true' | 'false' *)
@@ -40,6 +40,7 @@ let operand s = match s.[0] with
   | 'L' -> OLit (value (after s 1))
   | 'V' -> OVar (var (after s 1))
   | 'E' -> let (a, b) = split1 ',' (after s 1) in OElem (var a, zint b)
+  | 'C' -> let (a, b) = split1 ',' (after s 1) in OCall (var a, zint b)
   | _ -> failwith ("operand " ^ s)
 let binop = function "add" -> Add | "sub" -> Sub | "mul" -> Mul | s -> failwith ("binop " ^ s)
 let mapfn s = match split1 ':' s with
@@ -68,6 +69,8 @@ let op s =
   | ["clear"; v] -> Clear (var v)
   | ["clone"; d; s] -> Clone (var d, var s)
   | ["mapf"; d; s; f] -> MapF (var d, var s, mapfn f)
+  | ["mapelem"; d; s; w; i] -> MapElem (var d, var s, var w, zint i)
+  | ["mapkey"; d; s; m; k] -> MapKeyElem (var d, var s, var m, key k)
   | ["filterf"; d; s; p] -> FilterF (var d, var s, pred p)
   | ["indexof"; v; x] -> IndexOf (var v, operand x)
   | ["len"; v] -> Len (var v)
